@@ -112,6 +112,8 @@ Definition last_is (e : option oframe) (l : list oframe) : bool :=
 
 Definition mine (p : peer) (v : view) : list (reg * peer * bool) :=
   filter (fun e => N.eqb (snd (fst e)) p) (v_debug v).
+Definition my_channels (p : peer) (v : view) : list name :=
+  flat_map (fun e => match r_cat (fst (fst e)) with CChannel => [r_sub (fst (fst e))] | _ => [] end) (mine p v).
 Definition listed (p : peer) (v : view) : bool :=
   match v_lookup v with Some (_, ps) => existsb (N.eqb p) ps | None => false end.
 
@@ -132,6 +134,12 @@ Fixpoint mon_acts (by_ : peer) (prev : view) (l : list act) : bool :=
            frames_ok frames && last_is (a_expect a) frames
            && mseq debug_eqb (mine by_ v) (mine by_ prev)            (* isolation *)
            && Bool.eqb (listed by_ v) (listed by_ prev)
+           && forallb (fun c => existsb (bytes_eqb c) (v_chans v)) (my_channels by_ prev)  (* its channels are still listed *)
+           && (negb (listed by_ prev)
+               || match v_lookup v with
+                  | Some (chs, _) => forallb (fun c => existsb (bytes_eqb c) chs) (my_channels by_ prev)
+                  | None => false
+                  end)
            && match mine p v with [] => true | _ => false end         (* the closed connection left nothing *)
        | AHttp _ _ _, RHttp n =>
            negb (N.eqb n 0)
